@@ -405,6 +405,60 @@ CHECK_DEADLOCK FALSE
     return acc.finish(extra={"code_points_swept": summ.get("code_points_swept", 0) if summ else 0})
 
 
+def mc_ns(acc, L, skips, expand, name, emit=True, timeout=3000):
+    base = f"""SPECIFICATION Spec
+CONSTANTS
+  L = {L}
+  MaxSkips = {skips}
+  Expand = {"TRUE" if expand else "FALSE"}
+  Emit = {"TRUE" if emit else "FALSE"}
+  KnownDevs = {devs_tla()}
+"""
+    tiny = base.replace(f"L = {L}", "L = 2").replace("Emit = TRUE", "Emit = FALSE") + "INVARIANTS Inv_Witness\nCHECK_DEADLOCK FALSE\n"
+    rc = tlc("MC_Ns", tiny, name=name + "-wit", timeout=600, tags=("WITNESS",))
+    seen = {json.loads(w)[0] for w in rc.tagged.get("WITNESS", [])}
+    if {"read", "skip"} - seen:
+        raise ToolError(f"vacuous model: operations never taken: {{'read','skip'}} - {seen}")
+    r = tlc("MC_Ns", base + "INVARIANTS Inv_Scope Inv_Prefixes Inv_Level" + (" Inv_Emit" if emit else "") + "\nCHECK_DEADLOCK FALSE\n", name=name, timeout=timeout)
+    acc.add_tlc(r, f"A:MC_Ns L={L} skips<={skips} expand_empty={expand}")
+    path = None
+    if emit:
+        path = os.path.join(work_dir("beh-" + name), "behaviours.ndjson")
+        write_ndjson(path, r.tagged.get("REPLAY", []))
+    return r, path
+
+
+def c05(acc):
+    """Namespace resolution follows the declarations in scope at each event."""
+    q = acc.tier == QUICK
+    acc.rule = ("(A) MC_Ns: properly nested documents of <= L tag-level fragments (10 start-tag forms with default/prefixed declarations, re-declaration, un-declaration, "
+                "shadowing on one tag, prefixed attributes; empty elements; text) x every history of read / skip calls; after every call the resolver state must agree "
+                "with the declarative nearest-declaration scope for 5 pool names x element/attribute, prefixes() and nesting level. (B) every (document, history) run "
+                "on the real NsReader: slice (read_event/read_resolved_event, read_to_end and read_text), buffered (two cuts), async; (C) random deeper documents and "
+                "histories validated by TLC. non-trivial = histories containing a skip call")
+    acc.trusted = READER_TRUST + ["Attrs.tla is the attribute grammar used to find declarations"]
+    for expand in ([False, True] if not q else [False]):
+        _, p = mc_ns(acc, 3 if q else 4, 2, expand, f"MC_Ns-{int(expand)}")
+        summ, viol, _ = harness(["ns-replay", "--file", p, "--prop", acc.pid, "--out-dir", REPLAY_DIR])
+        acc.add_harness(summ, viol, f"B:replay histories (expand_empty={expand})")
+    if q:
+        _, p = mc_ns(acc, 2, 2, True, "MC_Ns-1")
+        summ, viol, _ = harness(["ns-replay", "--file", p, "--prop", acc.pid, "--out-dir", REPLAY_DIR])
+        acc.add_harness(summ, viol, "B:replay histories (expand_empty=True)")
+    wd = work_dir("trace-C05")
+    tp = os.path.join(wd, "trace.ndjson")
+    args = ["ns-record", "--out", tp, "--n", 250 if q else 3000, "--seed", SEED]
+    summ, viol, _ = harness(args)
+    ok = validate_trace(acc, "TraceNs", tp, "C:traces random documents and consumer histories on slice/buffered/async", f"  Deviations = {devs_tla()}",
+                        rerun_args=[str(a) for a in args])
+    if summ:
+        acc.traces += summ["traces"] if ok else 0
+        acc.evaluations += summ["events"]
+        acc.nontrivial += summ["nontrivial"]
+        acc.samples += summ["samples"][:2]
+    return acc.finish()
+
+
 def run_check(pid, tier):
     fn = REGISTRY.get(pid)
     if fn is None:
@@ -428,6 +482,9 @@ def replay(pid, path):
     if kind == "escape-replay":
         p = subprocess.run([build_harness(False), "escape-rerun", "--file", path], cwd=ROOT)
         return p.returncode
+    if kind == "ns-replay":
+        p = subprocess.run([build_harness(False), "ns-rerun", "--file", path], cwd=ROOT)
+        return p.returncode
     if kind == "attrs-replay":
         p = subprocess.run([build_harness(False), "attrs-rerun", "--file", path], cwd=ROOT)
         return p.returncode
@@ -439,4 +496,4 @@ def replay(pid, path):
     return 1
 
 
-REGISTRY = {"C01": c01, "C02": c02, "C03": c03, "C04": c04, "C08": c08, "C10": c10, "C11": c11, "C12": c12, "C16": c16, "C18": c18}
+REGISTRY = {"C01": c01, "C02": c02, "C03": c03, "C04": c04, "C05": c05, "C08": c08, "C10": c10, "C11": c11, "C12": c12, "C16": c16, "C18": c18}
